@@ -496,9 +496,15 @@ impl SlabRouter {
                 data: value.clone(),
             })
             .map_err(|e| SlabRouterError::WalError(format!("Failed to log put: {e}")))?;
+
+            // Apply to in-memory state while the log mutex is still held:
+            // concurrent writers then take effect in memory in the order in
+            // which their records were appended, so replaying the log
+            // reproduces the state readers saw.
+            return self.put(key, value);
         }
 
-        // Apply to in-memory state
+        // No log configured: plain put
         self.put(key, value)
     }
 
@@ -538,9 +544,13 @@ impl SlabRouter {
                 key: key.to_string(),
             })
             .map_err(|e| SlabRouterError::WalError(format!("Failed to log delete: {e}")))?;
+
+            // Apply to in-memory state while the log mutex is still held (see
+            // `put_durable`).
+            return self.delete(key);
         }
 
-        // Apply to in-memory state
+        // No log configured: plain delete
         self.delete(key)
     }
 
